@@ -5,6 +5,7 @@
 #include "b_dynamic.hpp"   // PgmPeek
 #include "../sim/io_shim.hpp"
 #include "pgm/pgm_index_variants.hpp"
+#include <deque>
 #include <fcntl.h>
 #include <memory>
 #include <sys/stat.h>
@@ -107,6 +108,7 @@ struct MappedClass {
             p.set("qseed", work.next() >> 1);
             p.set("qmax", 3000);
             p.set("io_faults", cfg.coin() ? "on" : "none");
+            if (cfg.chance(300)) p.set("container", "deque");
             auto flt = [&](const char *k) { return p.get("io_faults") == "on" ? " @" + std::to_string(fault.below(1200)) + ":" + k + ":" + std::to_string(fault.below(100000)) : std::string(); };
             p.item('O', "create-range s0 F1" + flt("short_io") + flt("eintr"));
             p.item('O', "query s0");
@@ -148,6 +150,7 @@ struct MappedClass {
             if (cfg.chance(250)) kinds.push_back("mmap_fail");
         }
         p.set("io_faults", kinds.empty() ? "none" : "on");
+        if (cfg.chance(300)) p.set("container", "deque");
         auto faults_for = [&](size_t est_calls) {
             std::string s;
             if (kinds.empty()) return s;
@@ -198,6 +201,7 @@ struct MappedClass {
         std::map<std::string, Instance> inst;
         std::vector<size_t> calls_per_op;
         bool check_c11 = true, check_c12 = true;
+        bool use_deque = false; ///< the range constructor is fed from a std::deque (random access, not contiguous)
     };
 
     static std::string file_of(Ctx &c, const std::string &f) { return f == "F2" ? c.f2 : c.f1; }
@@ -269,7 +273,8 @@ struct MappedClass {
                 std::unique_ptr<Index> ix;
                 std::string thrown, thrown_type;
                 try {
-                    if (o.kind == "create-range") ix.reset(new Index(d.begin(), d.end(), file));
+                    if (o.kind == "create-range" && c.use_deque) { std::deque<K> dq(d.begin(), d.end()); st.inc("reach.range_from_deque"); ix.reset(new Index(dq.begin(), dq.end(), file)); }
+                    else if (o.kind == "create-range") ix.reset(new Index(d.begin(), d.end(), file));
                     else if (o.kind == "create-raw") ix.reset(new Index(c.raw, file));
                     else ix.reset(new Index(file));
                 } catch (const std::runtime_error &e) { thrown = e.what(); thrown_type = "runtime_error"; }
@@ -336,6 +341,7 @@ struct MappedClass {
         c.queries = queries_for<K>(p, data);
         c.check_c11 = rc.prop != "C12";
         c.check_c12 = rc.prop != "C11";
+        c.use_deque = p.get("container") == "deque";
         std::string dir = scratch_dir();
         c.f1 = dir + "/f1.pgm"; c.f2 = dir + "/f2.pgm"; c.raw = dir + "/raw.bin";
         std::vector<FileOp> ops;
